@@ -54,7 +54,7 @@ META["C16"] = dict(
     "5 nodes without self-loops (thorough), 3 edge-insertion orders each, judged by an independent cycle test and order "
     "validator (icontract postcondition + boundary check); plus generated acyclic link graphs over 2-4 class groups / subclass "
     "arguments through real parsers with recording constructors (order, exactly-once, argument identity, cycle refusal); "
-    "30% of the components hold a class-typed parameter of their own, and links may target the parameters of that nested object.",
+    "30% of the components hold a class-typed parameter of their own, and links may target the parameters of that nested object. Also: a deep-nesting scenario (targets nested two levels, sources nested inside another component, groups and links declared in every order), cycle probes through nested targets and a class group feeding its own nested object.",
     level_note="Trusted: the independent graph oracle (30 lines) and the recording classes. End-to-end link graphs are sampled "
     "(random DAGs, declaration orders, name-prefix collisions, multi-source links, a failing instantiate before the judged one).",
     shards=g(4, 16),
@@ -133,7 +133,7 @@ META["C01"] = dict(
     "hostile strings x 9 serialisation routes (dump yaml/json/json_indented/skip_default, --print_config [skip_default|comments], "
     "save single/multi-file); the re-parsed configuration is compared value-for-value and type-for-type with the probe's own "
     "copy of the original. A second monitor compares the YAML dumper/loader pair directly on every hostile string."
-    " Option-less subcommands are part of the grammar. A variant route (skip_default, comments) is judged only when the plain route round trips for the same configuration.",
+    " Option-less subcommands are part of the grammar. A variant route (skip_default, comments) is judged only when the plain route round trips for the same configuration. Also: a parse rejected inside its --cfg (other values for the same keys) between the accepted configuration and its round trips; container hints in all supported spellings (typing / collections.abc / builtin aliases, FrozenSet).",
     level_note="Trusted: the comparator and the dynamic Union-ambiguity test (a value whose owner-member serialisation is read "
     "differently by another member is logged, not judged). Any-typed arguments are outside the property's grammar.",
     shards=g(4, 16),
@@ -169,7 +169,7 @@ META["C10"] = dict(
     "parse_object(C) must return an equal configuration (type for type), from the original and from another working "
     "directory, and dump(parse_string(dump(C))) must be byte-identical to dump(C) in yaml and json. One case in six uses "
     "class-typed options with prefix-related names (model, model_ema, ...) that all carry defaults with init_args."
-    " Also: a sparse class spec (defaults=False) re-parsed after an unrelated parse failed while class defaults were being added; settings for a subcommand other than the one named; dataclass fields that are Optional with a non-null default set to null.",
+    " Also: a sparse class spec (defaults=False) re-parsed after an unrelated parse failed while class defaults were being added; settings for a subcommand other than the one named; dataclass fields that are Optional with a non-null default set to null. Also: a class (needing type-aware serialisation) behind an Enum / path member of a Union, a container of a Union of dataclasses sharing a field name, string values in dict_kwargs, and every string of the hostile pool through dump-parse-dump (yaml, json) once per run.",
     level_note="Trusted: the comparator. The dump-parse-dump clause is judged only when the re-parsed configuration equals C "
     "(otherwise the difference is C01's and is counted, not double-reported).",
     shards=g(4, 16),
@@ -202,7 +202,7 @@ META["C20"] = dict(
     "operators (int and float, and/or) with candidates around every bound (incl. integral floats, bools, numeric strings, huge "
     "ints, non-finite floats, junk) judged by an independent predicate evaluation, through the cast T(v), argv and config; "
     "regex types against re.match; every built-in registered type with extreme values round-tripped through dump->parse and "
-    "serializer->argv, bare and inside Optional/List/Dict; a secret monitor greps every dump/print_config/save/error/help output.",
+    "serializer->argv, bare and inside Optional/List/Dict; a secret monitor greps every dump/print_config/save/error/help output. Also: candidates that already are instances of another restricted type (numbers and strings, also through parse_object); creation of every restriction set in both orders with automatic names; the same pattern compiled with a flag as a type of its own.",
     level_note="Trusted: operator/re semantics of CPython as the meaning of the restriction; value lists for registered types "
     "are finite samples (plus random members). Restriction sets are a sharded sample of the 5,000-set space per run.",
     shards=g(4, 16),
@@ -235,7 +235,7 @@ META["C03"] = dict(
     "config texts, environment mappings and Python objects, over five parser shapes (flat+groups, class/dataclass arguments, "
     "nested subcommands, links, positionals) in both exit_on_error modes. Termination is judged on a logical step budget "
     "(4e6 Python function entries per call, counted with sys.monitoring), not on wall-clock time."
-    " A sixth shape has an existing default config file and a required option; for half of the cases the same input is run under the opposite exit_on_error mode and the decisions must agree (what fails in one mode cannot print a config and exit 0 in the other). Values are partly aimed at the option's type (out-of-range numbers for numeric / restricted / registered types, scalars and mappings for list-valued options, nargs with choices); --cfg values include null or unknown subcommand sections and the config option's own key.",
+    " A sixth shape has an existing default config file and a required option; for half of the cases the same input is run under the opposite exit_on_error mode and the decisions must agree (what fails in one mode cannot print a config and exit 0 in the other). Values are partly aimed at the option's type (out-of-range numbers for numeric / restricted / registered types, scalars and mappings for list-valued options, nargs with choices); --cfg values include null or unknown subcommand sections and the config option's own key. Also: Callable[[int], Class] arguments (plain and in a List) with their sub-keys, a Union[dict, Class] argument, and crafted sequences that give one class-typed option several times on one command line (class, sub-options, another class).",
     level_note="Trusted: the classification of documented outcomes (Namespace, ArgumentError, exit 2 with usage+error, exit 0 for "
     "help/print_config). Sampled inputs; a wall-clock watchdog firing is INCONCLUSIVE.",
     shards=g(4, 16),
@@ -274,7 +274,7 @@ META["C04"] = dict(
     "list-typed, dict-typed); compared key by key with what the real parser returns, for parse_args, parse_env, parse_string, "
     "parse_object and parse_path, with default_env off / on / env=True / JSONARGPARSE_DEFAULT_ENV. Values carry the index of the "
     "source that wrote them."
-    " Further keys: an option spelled with a hyphen, a Sequence with a tuple default, a list of lists, a Mapping with a MappingProxyType default, a Dict with an OrderedDict default; a default config file matched by a pattern and listed again after it; a second call on the same parser (same sources, or only the standing sources); parse_path of a config in another directory than the process. Default config files come with decoys that must not disturb the others: a directory matched by the pattern, a file holding only comments.",
+    " Further keys: an option spelled with a hyphen, a Sequence with a tuple default, a list of lists, a Mapping with a MappingProxyType default, a Dict with an OrderedDict default; a default config file matched by a pattern and listed again after it; a second call on the same parser (same sources, or only the standing sources); parse_path of a config in another directory than the process. Default config files come with decoys that must not disturb the others: a directory matched by the pattern, a file holding only comments. Also: the scalar member of a Union[int, List[int]] key incl. falsy values followed by appends; the same parse_string / parse_object / parse_path call with defaults=False on parsers that read the environment.",
     level_note="Trusted: vf.models.fold (the statement rewritten as code). Sampled scenarios; only unambiguous values "
     "(ints, bools, words, int lists, str->int dicts).",
     shards=g(4, 16),
@@ -337,7 +337,7 @@ META["C06"] = dict(
     "token, prefixes of defined names, '+'-suffixed names; scalar, empty mapping, mapping or null value) is inserted at every node "
     "where the parser defines the keys, or one required key is removed / nulled; object, config string, --cfg string, --cfg file, "
     "parse_path and argv must reject, the error must contain the foreign key; leftover argv and parse_known_args are probed."
-    " Required-key mutations are also parsed with defaults=False (object and text), including a subcommand whose only setting is the required option and a required option of a second-level subcommand. Keys below dict_kwargs of a class whose __init__ has no **kwargs count as foreign keys.",
+    " Required-key mutations are also parsed with defaults=False (object and text), including a subcommand whose only setting is the required option and a required option of a second-level subcommand. Keys below dict_kwargs of a class whose __init__ has no **kwargs count as foreign keys. Also: the section holding a required option of a (nested) subcommand given but empty with defaults=False through object, text and argv.",
     level_note="Trusted: the hand-written templates' list of nodes at which keys are defined by the parser (never under Dict-typed "
     "values, Any or dict_kwargs). A case whose valid configuration is not accepted by all channels is skipped and counted.",
     shards=g(4, 16),
@@ -373,7 +373,7 @@ META["C12"] = dict(
     "and returns a unique token; the monitor checks exactly-once calls, constructor/method separation, each binding "
     "(given value converted to the declared type, else the signature default; type for type) and the return value; omitting a "
     "required parameter must fail."
-    " Also: classes nested in a list / dict of components (methods become subcommands of a subcommand); configs holding settings for several methods; two parent-level --config arguments each holding a part of the chosen subcommand's section; parameters typed as a Union of sequence types.",
+    " Also: classes nested in a list / dict of components (methods become subcommands of a subcommand); configs holding settings for several methods; two parent-level --config arguments each holding a part of the chosen subcommand's section; parameters typed as a Union of sequence types. Also: factory-made functions sharing module and qualified name with different signatures called in turn; a method with its own parameter named 'config'; Optional[Union[...]] parameters without default.",
     level_note="Trusted: the generator's own record of which value was given for which parameter. Sampled programs.",
     shards=g(4, 16),
     budget=g(40, 240),
@@ -401,7 +401,7 @@ META["C09"] = dict(
     "get_defaults, dump, validate, instantiate_classes, parse_args(namespace=...) and operations on another parser of the same "
     "process, on parsers with config arguments, subclass arguments with lazy defaults (one name a prefix of another), "
     "Optional classes, dataclasses, class groups, links, subcommands and default config files, in both exit_on_error modes; "
-    "every step's outcome on the long-lived parser is compared with the same step on a freshly built identical parser. One history in seven is dedicated: a help / print step, then only steps that read what the parser knows.",
+    "every step's outcome on the long-lived parser is compared with the same step on a freshly built identical parser. One history in seven is dedicated: a help / print step, then only steps that read what the parser knows. Also dedicated histories: '--print_config followed by a print-and-exit option, then ordinary parses'; a Union[Class, Callable[[int], Class]] parameter given factory-only / object-only values in turn; an instantiate_classes call that fails after links applied on instantiation, then further instantiate_classes calls.",
     level_note="All sides run the same code, so wording changes cannot alarm. State kept outside the parser (context variables, "
     "module globals, caches) would influence a fresh parser of the same process just as much, so every step is also compared "
     "with its outcome in a process without any history: a reference server forked before the shard's first parse forks one child "
@@ -465,7 +465,7 @@ META["C15"] = dict(
     "source incl. None, required target) and links inside a subcommand's parser (with and without links in the parent); source "
     "values arrive from argv, --cfg, object, config string, environment and defaults; a value for the target itself is supplied "
     "through config/object/class spec in half of the cases. After each parse the target is recomputed from the final sources "
-    "with the generator's own copy of the function; dumps are inspected for the target and re-parsed. Links inside a subcommand's parser are also driven with the subcommand named through the environment.",
+    "with the generator's own copy of the function; dumps are inspected for the target and re-parsed. Links inside a subcommand's parser are also driven with the subcommand named through the environment. Also: group sources into untyped / Any targets that already hold a mapping; the result edited in place and parsed again with value-sensitive compute functions over group and list sources; a chain declared through a group source (must be refused or still give final-value targets).",
     level_note="Trusted: the generator's copies of the compute functions and the YAML reader used to inspect dumps.",
     shards=g(4, 16),
     budget=g(40, 240),
@@ -493,7 +493,7 @@ META["C17"] = dict(
     "equal it exactly (no other sections), or the parse must fail when a required subcommand is undeterminable."
     " Subcommand names include names of Namespace methods (get, items, pop). Default config files at any level may also carry "
     "sections for (several of) that level's subcommands without naming one: they count as given settings for the selection rule and "
-    "sit between the subcommand's defaults and its environment values.",
+    "sit between the subcommand's defaults and its environment values. Also: env=False given to the call on a default_env parser; the document given as the environment's config (APP_CFG), incl. a crafted case where the environment names the subcommand at two levels and its config sets the inner section.",
     level_note="Trusted: the model's reading of the selection rule and of the environment variable names (PREFIX_SUB__OPT, "
     "PREFIX_SUB__SUBCOMMAND). Environment-given settings are always accompanied by a named choice.",
     shards=g(4, 16),
@@ -525,7 +525,7 @@ META["C18"] = dict(
     "init_args), a value of a user-registered type whose serializer raises (top level and inside the inner parser), and an "
     "injected OSError at the 1st..4th write-open. Oracle: SHA-256 directory snapshots before/after and the audit log of "
     "write-opens; successful saves are parsed back and compared."
-    " After the fault loop: a multi-file save that fails after its sub-files were collected, followed by a successful multi-file save into another directory; the directory of the failed save must stay untouched. A value the file encoding cannot write is one of the serialisation faults; in single-file mode the target is also spelled as an fsspec path (local://).",
+    " After the fault loop: a multi-file save that fails after its sub-files were collected, followed by a successful multi-file save into another directory; the directory of the failed save must stay untouched. A value the file encoding cannot write is one of the serialisation faults; in single-file mode the target is also spelled as an fsspec path (local://). Also: saving back into the source directory after sub-file values changed; sub-configs loaded from files of the same name in different directories; save_path_content into the file's own directory and elsewhere.",
     level_note="Trusted: snapshot comparison; injected OSError runs are judged only against 'no existing file modified unless "
     "overwrite is requested'. Read-only directories are not exercised (checks run as root). Quick samples 5 fault positions per scenario.",
     shards=g(4, 16),
